@@ -976,7 +976,9 @@ class Process:
         ret = []
         if not recursive:
             for pid, ppid in ppid_map.items():
-                if ppid == self.pid:
+                # (a process is never its own child, even if the
+                # kernel says so, e.g. PID 0 on BSD)
+                if ppid == self.pid and pid != self.pid:
                     try:
                         child = Process(pid)
                         # if child happens to be older than its parent
@@ -989,7 +991,8 @@ class Process:
             # Construct a {pid: [child pids]} dict
             reverse_ppid_map = collections.defaultdict(list)
             for pid, ppid in ppid_map.items():
-                reverse_ppid_map[ppid].append(pid)
+                if pid != self.pid:
+                    reverse_ppid_map[ppid].append(pid)
             # Recursively traverse that dict, starting from self.pid,
             # such that we only call Process() on actual children
             seen = set()
